@@ -128,6 +128,13 @@ func (d Decimal) Ceil(dp int) Decimal {
 		}
 	}
 
+	// A quantum above the largest exponent can still leave a representable
+	// result when the significand is short enough to absorb the difference.
+	for exp > maxBiasedExponent && sig[1] <= 0x0002_7fff_ffff_ffff/10 {
+		sig = sig.mul64(10)
+		exp--
+	}
+
 	if exp > maxBiasedExponent {
 		return inf(neg)
 	}
@@ -225,6 +232,13 @@ func (d Decimal) Floor(dp int) Decimal {
 		}
 	}
 
+	// A quantum above the largest exponent can still leave a representable
+	// result when the significand is short enough to absorb the difference.
+	for exp > maxBiasedExponent && sig[1] <= 0x0002_7fff_ffff_ffff/10 {
+		sig = sig.mul64(10)
+		exp--
+	}
+
 	if exp > maxBiasedExponent {
 		return inf(neg)
 	}
@@ -289,6 +303,13 @@ func (d Decimal) Round(dp int, mode RoundingMode) Decimal {
 
 	neg := d.Signbit()
 	sig, exp = mode.round(false, neg, sig, int16(iexp), trunc, digit)
+
+	// A quantum above the largest exponent can still leave a representable
+	// result when the significand is short enough to absorb the difference.
+	for exp > maxBiasedExponent && sig[1] <= 0x0002_7fff_ffff_ffff/10 {
+		sig = sig.mul64(10)
+		exp--
+	}
 
 	if exp > maxBiasedExponent {
 		return inf(neg)
